@@ -1,7 +1,7 @@
 """Interpreter tasks for generated task programs (C09, C11, C19).
 
 A program is a tree of nodes; a node is a dict
-  {"fl": "p"|"d"|"c",      plain task (returns an invocation) | direct task (returns the value) | plain task with
+  {"fl": "p"|"d"|"c"|"r",  ("r": plain task with retry_for=(ValueError,), max_retries 1)      plain task (returns an invocation) | direct task (returns the value) | plain task with
                            running concurrency control TASK + reroute (n_c0: one execution RUNNING at a time)
    "mr": 0|1|2,            max_retries of the task that runs the node
    "sc": ["ret", v] | ["slow", seconds, v] | ["retry_until", k, v] | ["always_retry"] | ["fail", msg],
@@ -51,7 +51,7 @@ def _body(spec: dict, path: str) -> Any:
                 total += _call_child(kid, f"{path}.{i}")
         else:
             k0 = kids[0]
-            t = STATE["tasks"][("c" if k0["fl"] == "c" else "p", k0["mr"])]
+            t = STATE["tasks"][(k0["fl"] if k0["fl"] in ("c", "r") else "p", k0["mr"])]
             grp = t.parallelize([(kid, f"{path}.{i}") for i, kid in enumerate(kids)])
             if spec.get("call") == "group_first":
                 # a consumer that stops after the first result it gets (which member that is may differ between
@@ -74,6 +74,11 @@ def _body(spec: dict, path: str) -> Any:
             from pynenc.exceptions import RetryError
 
             raise RetryError(f"{path}#{attempt}")
+        return sc[2] + total
+    if sc[0] == "vretry_until":
+        # retriable only because the task lists ValueError in retry_for
+        if attempt < sc[1]:
+            raise ValueError(f"{path}#{attempt}")
         return sc[2] + total
     if sc[0] == "always_retry":
         from pynenc.exceptions import RetryError
@@ -112,7 +117,11 @@ def n_c0(spec: dict, path: str) -> Any:
     return _body(spec, path)
 
 
-FUNCS = {("c", 0): n_c0, ("p", 0): n_p0, ("p", 1): n_p1, ("p", 2): n_p2, ("d", 0): n_d0, ("d", 1): n_d1, ("d", 2): n_d2}
+def n_r1(spec: dict, path: str) -> Any:
+    return _body(spec, path)
+
+
+FUNCS = {("c", 0): n_c0, ("r", 1): n_r1, ("p", 0): n_p0, ("p", 1): n_p1, ("p", 2): n_p2, ("d", 0): n_d0, ("d", 1): n_d1, ("d", 2): n_d2}
 
 
 def bind_all(app: Any) -> dict:
@@ -124,6 +133,9 @@ def bind_all(app: Any) -> dict:
             from pynenc.conf.config_task import ConcurrencyControlType as CC
 
             out[(fl, mr)] = app.task(fn, max_retries=mr, running_concurrency=CC.TASK, reroute_on_concurrency_control=True)
+        elif fl == "r":
+            # a custom retry_for: ValueError is retriable, and so is pynenc's own RetryError (always)
+            out[(fl, mr)] = app.task(fn, max_retries=mr, retry_for=(ValueError,))
         elif fl == "p":
             out[(fl, mr)] = app.task(fn, max_retries=mr)
         else:
